@@ -12,7 +12,6 @@ from collections import Counter
 from copy import deepcopy
 from functools import reduce
 from itertools import count
-from textwrap import dedent
 from types import TracebackType
 
 from .selector import Element, check_element
@@ -1220,7 +1219,14 @@ def transform(fn, proceed, to_instrument=True, set_conformer=True):
     if to_instrument is True:
         to_instrument = [_GENERIC]
 
-    src = dedent(inspect.getsource(fn))
+    src = inspect.getsource(fn)
+    # The source of a method or nested function is indented. Dedenting the
+    # text would also change the multi-line string literals it contains (and
+    # fails when one of their lines starts at column 0): wrap it in a block
+    # instead. `wrapped` is the number of lines this adds in front.
+    wrapped = 1 if src[:1] in (" ", "\t") else 0
+    if wrapped:
+        src = "if 1:\n" + src
 
     # Scrape the comments in the function's source and map them to lines.
     comments = {}
@@ -1239,6 +1245,8 @@ def transform(fn, proceed, to_instrument=True, set_conformer=True):
     filename = inspect.getsourcefile(fn)
     tree = ast.parse(src, filename)
     tree = tree.body[0]
+    if wrapped:
+        tree = tree.body[0]
     if not isinstance(tree, ast.FunctionDef):
         raise TypeError(
             f"transform() only works on functions defined with def (got {fn})"
@@ -1278,6 +1286,7 @@ def transform(fn, proceed, to_instrument=True, set_conformer=True):
     new_tree = transformer.result
     ast.fix_missing_locations(new_tree)
     _, lineno = inspect.getsourcelines(fn)
+    lineno -= wrapped
     ast.increment_lineno(new_tree, lineno - 1)
     freevars = fn.__code__.co_freevars
     new_fn = _compile(filename, new_tree, freevars)
